@@ -375,6 +375,39 @@ pub fn run(rep: &Report) {
         });
         check_case(c, l)
     });
+    // long separators: every run length 0..=320 of whitespace, of empty comments, and every comment
+    // body length 0..=320 (ASCII and multi-byte), in front of, inside and behind a small expression
+    // (block boundaries, inline capacities and counters of a tokenizer are crossed only by long gaps)
+    let base_toks = |k: u64| -> Vec<Tok> {
+        match k % 3 {
+            0 => vec![Tok::Ident("alpha".into()), Tok::Plus, Tok::Int(12)],
+            1 => vec![Tok::Int(1), Tok::Plus, Tok::Int(2), Tok::Star, Tok::Ident("beta".into())],
+            _ => vec![Tok::Ident("f".into()), Tok::LParen, Tok::Int(10), Tok::Comma, Tok::Str("a b".into()), Tok::RParen],
+        }
+    };
+    common::enumerate(rep, "long-separators", 321 * 6 * 3, 64, &|i, l| {
+        let n = (i % 321) as usize;
+        let kind = (i / 321) % 6;
+        let toks = base_toks(i / (321 * 6));
+        let gaps = toks.len() + 1;
+        let long: Vec<Item> = match kind {
+            0 => (0..n).map(|_| Item::Ws(5)).collect(),
+            1 => (0..n).map(|j| Item::Ws(j)).collect(),
+            2 => (0..n).map(|_| Item::Block(String::new())).collect(),
+            3 => vec![Item::Block("x".repeat(n))],
+            4 => vec![Item::Block("ä*".repeat(n / 3) + &"y".repeat(n % 3))],
+            _ => vec![Item::Line("z".repeat(n))],
+        };
+        // the long gap in front, in the middle and at the end, one position per case
+        let at = (i as usize / 7) % gaps;
+        let mut s1 = vec![Vec::new(); gaps];
+        s1[at] = long;
+        let s2 = vec![vec![Item::Ws(5)]; gaps];
+        if n >= 16 {
+            l.label("long separator (>= 16 items or characters)");
+        }
+        check_case(&SepCase { toks, s1, s2 }, l)
+    });
     // unterminated block comments are errors wherever they stand (outside strings)
     let n2 = rep.tier.pick(40_000u64, 600_000);
     common::random_search(
